@@ -9,7 +9,9 @@ use std::io::{BufRead, Read, Write};
 use std::process::{Command, Stdio};
 use std::time::{Duration, Instant};
 
-pub const ROOT: &str = "/verif";
+pub fn root() -> String {
+    std::env::var("DESKSET_ROOT").unwrap_or_else(|_| "/verif".to_string())
+}
 pub const DEFAULT_SEED: u64 = 0xDEB822;
 
 #[derive(Clone, Copy, PartialEq, Eq, Debug)]
@@ -232,7 +234,7 @@ fn self_exe() -> std::path::PathBuf {
 }
 
 fn scratch_dir() -> String {
-    let d = format!("{}/target/deskset-tmp/{}", ROOT, std::process::id());
+    let d = format!("{}/target/deskset-tmp/{}", root(), std::process::id());
     let _ = std::fs::create_dir_all(&d);
     d
 }
@@ -529,7 +531,7 @@ struct KnownFinding {
 }
 
 fn load_known(id: &str) -> Vec<KnownFinding> {
-    let p = format!("{ROOT}/known_findings.json");
+    let p = format!("{}/known_findings.json", root());
     match std::fs::read_to_string(&p) {
         Ok(s) => match serde_json::from_str::<KnownFindings>(&s) {
             Ok(k) => k.findings.into_iter().filter(|f| f.property == id).collect(),
@@ -744,7 +746,7 @@ pub fn run_main<S: Scenario>(tier: Tier) -> i32 {
     let mut n_viol = 0u64;
     let mut known_hit: BTreeMap<String, u64> = BTreeMap::new();
     let mut violation_reports = vec![];
-    let _ = std::fs::create_dir_all(format!("{ROOT}/replays"));
+    let _ = std::fs::create_dir_all(format!("{}/replays", root()));
     for (sig, v) in &by_sig {
         let count = merged.done.sig_counts.get(sig).cloned().unwrap_or(1);
         if let Some(kf) = known.iter().find(|f| &f.signature == sig) {
@@ -753,7 +755,7 @@ pub fn run_main<S: Scenario>(tier: Tier) -> i32 {
             continue;
         }
         n_viol += 1;
-        let path = format!("{ROOT}/replays/{}-{}-{}.json", S::ID, seed, v.k);
+        let path = format!("{}/replays/{}-{}-{}.json", root(), S::ID, seed, v.k);
         let replay = json!({
             "format": 1, "property": S::ID, "verif_seed": seed, "run": v.k, "tier": tier.name(),
             "signature": sig, "detail": v.detail, "envelope": v.envelope, "original_envelope": v.original_envelope,
@@ -830,8 +832,8 @@ pub fn run_main<S: Scenario>(tier: Tier) -> i32 {
         "wall_s": wall,
         "violations": n_viol,
     });
-    let _ = std::fs::create_dir_all(format!("{ROOT}/evidence"));
-    std::fs::write(format!("{ROOT}/evidence/{}.json", S::ID), serde_json::to_string_pretty(&ev).unwrap()).expect("write evidence");
+    let _ = std::fs::create_dir_all(format!("{}/evidence", root()));
+    std::fs::write(format!("{}/evidence/{}.json", root(), S::ID), serde_json::to_string_pretty(&ev).unwrap()).expect("write evidence");
     println!(
         "RESULT property={} runs={} steps={} distinct_nontrivial={} states={} violations={} known_findings={} determinism={}/{} wall={:.1}s",
         S::ID,
